@@ -65,6 +65,8 @@ class LifeSystem:
         self.deep.grpc._metadata = []
         self.poll_fail = False
         self.send_block = None
+        self.send_blocks = {}
+        self.send_fail_ids = set()
         self.send_fail = False
         self.sent = []
         self.polls = 0
@@ -86,10 +88,12 @@ class LifeSystem:
         return PollResponse(ts_nanos=1, current_hash='h1', response=[tp], response_type=ResponseType.UPDATE)
 
     def _send(self, request):
-        if self.send_block is not None:
-            self.send_block.wait(5)
+        n = int.from_bytes(request.ID, 'big')
+        blk = self.send_blocks.get(n)
+        if blk is not None:
+            blk.wait(5)
         self.sent.append(request.ID)
-        if self.send_fail:
+        if n in self.send_fail_ids or self.send_fail:
             raise fakes.FakeRpcError('unavailable')
         return None
 
@@ -108,21 +112,35 @@ class LifeSystem:
         self.deep.start()
 
     def pending_snapshot(self):
-        """Hand a snapshot to delivery that will still be pending (and will fail) when shutdown flushes."""
+        """Hand two snapshots to delivery that are still pending when shutdown flushes: the first one fails as soon
+        as flush has started, the second one succeeds a little later (shutdown must wait for it as well)."""
         from deep.api.tracepoint.eventsnapshot import EventSnapshot
         from deep.api.tracepoint.tracepoint_config import TracePointConfig
         from deep.api.resource import Resource
-        self.send_block = threading.Event()
-        self.send_fail = True
-        snap = EventSnapshot(TracePointConfig('x', 'f.py', 1, {}, [], []), 1, Resource.create(), [], {})
-        self.deep.push.push_snapshot(snap)
+        first, second = threading.Event(), threading.Event()
+        self.send_block = first
+        snaps = []
+        for blk, fail in ((first, True), (second, False)):
+            snap = EventSnapshot(TracePointConfig('x', 'f.py', 1, {}, [], []), 1, Resource.create(), [], {})
+            snap._id = len(self.send_blocks) + 1001
+            self.send_blocks[snap._id] = blk
+            if fail:
+                self.send_fail_ids.add(snap._id)
+            snaps.append(snap)
+            try:
+                self.deep.push.push_snapshot(snap)
+            except BaseException:
+                # after a shutdown the task handler stays closed: a later start does not reopen it and the delivery
+                # is refused visibly - then there is nothing pending for this shutdown to drain
+                blk.set()
         orig = self.deep.task_handler.flush
-        blk = self.send_block
 
         def flush():
-            blk.set()
+            first.set()
+            threading.Timer(0.25, second.set).start()
             return orig()
         self.deep.task_handler.flush = flush
+        self._release = (first, second)
 
     def shutdown(self, failing):
         """failing: set of step numbers (2 = pending deliveries fail, 3 = service failing, 3+i = plugin i raises)."""
@@ -144,15 +162,16 @@ class LifeSystem:
         except BaseException as ex:
             return repr(ex)
         finally:
-            if self.send_block is not None:
-                self.send_block.set()
+            self.pending_at_return = len(self.deep.task_handler._pending)
+            for ev in getattr(self, '_release', ()):
+                ev.set()
 
     def project(self):
         timer = self.deep.poll.timer
         return {'sysTrace': self.hook_name(sys.gettrace()), 'thrTrace': self.hook_name(threading.gettrace()),
                 'started': bool(self.deep.started),
                 'pollAlive': bool(timer is not None and timer.thread.is_alive()),
-                'pending': len(self.deep.task_handler._pending),
+                'pending': getattr(self, 'pending_at_return', len(self.deep.task_handler._pending)),
                 'pluginDown': sorted(i + 1 for i, p in enumerate(self.plugins)
                                      if any(c[0] == 'shutdown' for c in p.calls))}
 
